@@ -12,17 +12,3 @@ NOT_APPLICABLE = {
 for _p in ["C%02d" % i for i in range(1, 21)]:
     NOT_APPLICABLE.setdefault(_p, NOT_BUILT)
 
-CHECKS = {
-    "C01": {
-        "text": "Full-strength Lean theorems (flat_search_exact, flat_score_is_distance, flat_removed_never_returned, live_remove_drops, "
-                "flat_k_nonpos_returns_all, flat_filter_threshold_only_remove, flat_flush_noop_on_search, error cases) about a line-by-line model of "
-                "flat_index.go / flat_index_search.go, for every history with distinct ids, every query, k in Z, threshold and id restriction, "
-                "generic in the metric and the score order. The model is tied to /repo on every run: a Go harness drives the real FlatIndex with "
-                "generated histories and the compiled Lean driver replays them on model and specification, compares outcomes and stored vectors "
-                "bit for bit, and judges every answer with the verified checker checkTopK (checkTopK_iff).",
-        "design_ref": "6.1",
-        "note": "Trusted: Lean kernel; Float32 primitives of Lean = Go float32 on amd64 (validated bit-exactly each run); <= on non-NaN floats is a total preorder; "
-                "sort.Slice yields a sorted permutation; roaring implements finite sets; harness and driver are differential testers bounded by the printed input distribution.",
-        "technique": "Lean 4 proof (refinement to live-list spec + verified top-k checker) with differential correspondence",
-    },
-}
